@@ -2,6 +2,8 @@ package checks
 
 import (
 	"fmt"
+	"github.com/trustbloc/sidetree-go/pkg/versions/1_0/doccomposer"
+	"github.com/trustbloc/sidetree-go/pkg/versions/1_0/operationapplier"
 
 	"github.com/trustbloc/sidetree-go/pkg/api/protocol"
 	"github.com/trustbloc/sidetree-go/pkg/versions/1_0/operationparser"
@@ -130,6 +132,35 @@ func c09Run(c *fw.Case, typ byte, keyType string, proto protocol.Protocol, g gri
 		s.Anchor.Time = g.t
 		s.Facts.InWindow = in
 	}}}
+	// the applier is also reachable as a struct literal over its exported members, and its protocol member may be (re)assigned
+	// after construction: the window follows the applier's protocol by every route
+	route := c.Idx % 3
+	if histNoRequestParse {
+		route = 0 // the caller installed its own stack factory
+	}
+	switch route {
+	case 1:
+		old := histStackFactory
+		histStackFactory = func(p protocol.Protocol) *sut.Stack {
+			parser := operationparser.New(p)
+			dc := doccomposer.New()
+			return &sut.Stack{P: p, Parser: parser, Composer: dc, Applier: &operationapplier.Applier{Protocol: p, OperationParser: parser, DocumentComposer: dc}}
+		}
+		defer func() { histStackFactory = old }()
+		c.Count("applier-as-struct-literal", 1)
+	case 2:
+		old := histStackFactory
+		histStackFactory = func(p protocol.Protocol) *sut.Stack {
+			first := p
+			first.MaxOperationTimeDelta = p.MaxOperationTimeDelta + 777
+			st := sut.NewStack(first)
+			st.Applier.Protocol = p
+			st.P = p
+			return st
+		}
+		defer func() { histStackFactory = old }()
+		c.Count("applier-protocol-assigned-after-construction", 1)
+	}
 	runHistoryProto(c, plan, keyType, 18, proto, true, "C01")
 }
 
